@@ -153,6 +153,13 @@ class HTTP(BaseComponent):
         self.fire(write(sock, b'%s%s' % (bytes(res), bytes(headers))))
 
         if req.method == 'HEAD':
+            # the response to HEAD ends with the header block: finish it
+            # like any other complete response
+            if res.close:
+                self.fire(close(sock))
+            if sock in self._clients:
+                del self._clients[sock]
+            res.done = True
             return
         if res.stream and res.body:
             try:
